@@ -3,7 +3,8 @@ from . import common as K
 TITLE = "bigWig range queries: exactly the overlapping values, clipped, in order"
 EXPLANATION = (
     "The keep-condition of every section-type arm is decided over all order types of (value start, value end, s, e) to be "
-    "equivalent to `the value shares a base with [s,e)`, the clip assignments to be max/min, the three arms to be identical; the "
+    "equivalent to the reference `nothing for an empty range; a value with bases iff it shares a base with [s,e); a value without bases iff it lies within [s,e]` "
+    "(via the shared helper value_in_range, decided once over value.start <= value.end, s <= e), the clip assignments to be max/min, the three arms to be identical; the "
     "index pruning predicate (overlaps o compare_position, inlined) is implied by `child span shares a base with the query` on "
     "all chromosome x base order types so no intersecting block can be pruned; the query reaches the decoders unchanged; the "
     "decode layout is C10's.")
